@@ -78,8 +78,6 @@ Definition exact : list (string * cls) := [
      Unreachable "guarded by gt_result.is_some() in the enclosing if");
   ("consensus_thread::ConsensusThread::bundle_block#3-unwrap@debug",
      Unreachable "guarded by gt_result.is_some() in the enclosing if");
-  ("consensus_thread::ConsensusThread::bundle_block#4-unwrap",
-     Known "gt-dropped-then-unwrap");
   ("consensus_thread::ConsensusThread_as_ProcessEvent::process_network_event#1-unreachable",
      LocalOnly "no network event receiver is given to the consensus thread");
   ("consensus_thread::ConsensusThread_as_ProcessEvent::on_init#1-unwrap@info",
